@@ -241,3 +241,358 @@ Theorem with_metadata_keeps_sizes e m :
   n_extra (with_metadata e m) = n_extra e /\ n_xattrs (with_metadata e m) = n_xattrs e /\
   n_phsf (with_metadata e m) = n_phsf e.
 Proof. repeat split. Qed.
+
+(* ================================================================================================= *)
+(* 14. parse . serialise for normal entries                                                            *)
+(* ================================================================================================= *)
+Definition sum_len (l : list bytes) : N := fold_left N.add (map len l) 0.
+Definition nonempty (d : bytes) : bool := match d with [] => false | _ => true end.
+(* re-serialising drops empty FDAT payloads (`chunks(u32::MAX)` of an empty slice yields nothing);
+   everything else is kept *)
+Definition normalize (e : normal_entry) : normal_entry :=
+  {| n_hdr := n_hdr e; n_phsf := n_phsf e; n_extra := n_extra e; n_data := filter nonempty (n_data e);
+     n_meta := n_meta e; n_xattrs := n_xattrs e |}.
+
+Lemma fold_add_acc l : forall acc, fold_left N.add l acc = acc + fold_left N.add l 0.
+Proof.
+  induction l as [|x l IH]; intros acc; cbn [fold_left]; [lia|]. rewrite IH, (IH (0 + x)). lia.
+Qed.
+Lemma sum_len_nil : sum_len [] = 0.
+Proof. reflexivity. Qed.
+Lemma sum_len_cons d l : sum_len (d :: l) = len d + sum_len l.
+Proof. unfold sum_len. cbn [map fold_left]. rewrite fold_add_acc. lia. Qed.
+Lemma sum_len_app a b : sum_len (a ++ b) = sum_len a + sum_len b.
+Proof. induction a as [|d a IH]; cbn [app]; rewrite ?sum_len_cons, ?sum_len_nil, ?IH; lia. Qed.
+Lemma sum_len_filter l : sum_len (filter nonempty l) = sum_len l.
+Proof.
+  induction l as [|d l IH]; [reflexivity|]. cbn [filter]. destruct d as [|b d]; cbn [nonempty].
+  - rewrite sum_len_cons, IH. unfold len. cbn [length]. lia.
+  - rewrite !sum_len_cons, IH. reflexivity.
+Qed.
+
+(* the chunk types the normal-entry parser recognises; all others are kept in n_extra *)
+Definition is_known (c : chunk) : bool :=
+  ty_is c FEND || ty_is c FHED || ty_is c PHSF || ty_is c FDAT || ty_is c fSIZ || ty_is c cTIM ||
+  ty_is c mTIM || ty_is c aTIM || ty_is c fPRM || ty_is c xATR.
+
+Lemma is_known_false c : is_known c = false ->
+  ty_is c FEND = false /\ ty_is c FHED = false /\ ty_is c PHSF = false /\ ty_is c FDAT = false /\
+  ty_is c fSIZ = false /\ ty_is c cTIM = false /\ ty_is c mTIM = false /\ ty_is c aTIM = false /\
+  ty_is c fPRM = false /\ ty_is c xATR = false.
+Proof. unfold is_known. rewrite !orb_false_iff. tauto. Qed.
+
+Definition opt_all {A} (P : A -> Prop) (o : option A) : Prop := match o with Some v => P v | None => True end.
+Definition fhed_ok (h : fhed) : Prop :=
+  f_minor h < 256 /\ utf8_valid (f_name h) = true /\ sanitize_name (f_name h) = f_name h.
+
+(* what the parser establishes about its accumulator *)
+Definition wf_acc (a : nacc) : Prop :=
+  opt_all fhed_ok (k_info a) /\ opt_all (fun s => utf8_valid s = true) (k_phsf a) /\
+  Forall (fun c => is_known c = false) (k_extra a) /\ k_csize a = sum_len (k_data a) /\
+  opt_all (fun n => n < 2 ^ 128) (k_size a) /\
+  opt_all (fun t => t < 2 ^ 64) (k_c a) /\ opt_all (fun t => t < 2 ^ 64) (k_m a) /\
+  opt_all (fun t => t < 2 ^ 64) (k_a a) /\
+  opt_all wf_perm (k_perm a) /\ Forall wf_xattr (k_x a).
+
+Lemma time_dec_lt bs t : time_of_bytes bs = Ok t -> t < 2 ^ 64.
+Proof.
+  unfold time_of_bytes. destruct (Nat.eqb_spec (length bs) 8) as [E|]; [|discriminate]. intros [= <-].
+  pose proof (of_be_lt_len _ _ E) as H. exact H.
+Qed.
+
+Lemma utf8_string_ok bs s : utf8_string bs = Ok s -> s = bs /\ utf8_valid s = true.
+Proof. unfold utf8_string. destruct (utf8_valid bs) eqn:E; [|discriminate]. intros [= <-]. auto. Qed.
+
+Ltac split_n n := match n with O => try assumption | S ?k => split; [try assumption | split_n k] end.
+Ltac finish_wf :=
+  unfold wf_acc; cbn [k_info k_phsf k_extra k_data k_csize k_size k_c k_m k_a k_perm k_x opt_all];
+  split_n 9%nat.
+
+Lemma parse_normal_loop_wf cs : forall a a', wf_acc a -> parse_normal_loop cs a = Ok a' -> wf_acc a'.
+Proof.
+  induction cs as [|c cs IH]; intros a a' Hw; cbn [parse_normal_loop]; [intros [= <-]; exact Hw|].
+  destruct (ty_is c FEND) eqn:T0; [intros [= <-]; exact Hw|].
+  destruct Hw as (W1 & W2 & W3 & W4 & W5 & W6 & W7 & W8 & W9 & W10).
+  destruct (ty_is c FHED) eqn:T1.
+  { destruct (fhed_of_bytes (cdata c)) as [h| |] eqn:E; cbn [bind]; try discriminate.
+    apply IH. finish_wf. exact (proj2 (fhed_dec_wf _ _ E)). }
+  destruct (ty_is c PHSF) eqn:T2.
+  { destruct (utf8_string (cdata c)) as [s| |] eqn:E; cbn [bind]; try discriminate.
+    apply IH. finish_wf. apply (utf8_string_ok _ _ E). }
+  destruct (ty_is c FDAT) eqn:T3.
+  { apply IH. finish_wf. rewrite W4, sum_len_app, sum_len_cons, sum_len_nil. lia. }
+  destruct (ty_is c fSIZ) eqn:T4.
+  { apply IH. finish_wf. apply fsiz_of_bytes_lt. }
+  destruct (ty_is c cTIM) eqn:T5.
+  { destruct (time_of_bytes (cdata c)) as [t| |] eqn:E; cbn [bind]; try discriminate.
+    apply IH. finish_wf. apply (time_dec_lt _ _ E). }
+  destruct (ty_is c mTIM) eqn:T6.
+  { destruct (time_of_bytes (cdata c)) as [t| |] eqn:E; cbn [bind]; try discriminate.
+    apply IH. finish_wf. apply (time_dec_lt _ _ E). }
+  destruct (ty_is c aTIM) eqn:T7.
+  { destruct (time_of_bytes (cdata c)) as [t| |] eqn:E; cbn [bind]; try discriminate.
+    apply IH. finish_wf. apply (time_dec_lt _ _ E). }
+  destruct (ty_is c fPRM) eqn:T8.
+  { destruct (perm_of_bytes (cdata c)) as [p| |] eqn:E; cbn [bind]; try discriminate.
+    apply IH. finish_wf. apply (perm_dec_wf _ _ E). }
+  destruct (ty_is c xATR) eqn:T9.
+  { destruct (xattr_of_bytes (cdata c)) as [x| |] eqn:E; cbn [bind]; try discriminate.
+    apply IH. finish_wf. apply Forall_app. split; [exact W10|]. constructor; [|constructor]. apply (xattr_dec_wf _ _ E). }
+  apply IH. finish_wf. apply Forall_app. split; [exact W3|]. constructor; [|constructor].
+  unfold is_known. rewrite T0, T1, T2, T3, T4, T5, T6, T7, T8, T9. reflexivity.
+Qed.
+
+Lemma wf_acc0 : wf_acc nacc0.
+Proof. unfold wf_acc, nacc0; cbn. repeat split; constructor. Qed.
+
+(* a parsed normal entry *)
+Definition wf_normal (e : normal_entry) : Prop :=
+  wf_fhed (n_hdr e) /\ f_major (n_hdr e) = 0 /\ f_minor (n_hdr e) = 0 /\
+  opt_all (fun s => utf8_valid s = true) (n_phsf e) /\
+  Forall (fun c => is_known c = false) (n_extra e) /\
+  m_compressed (n_meta e) = sum_len (n_data e) /\
+  opt_all (fun n => n < 2 ^ 128) (m_raw_size (n_meta e)) /\
+  opt_all (fun t => t < 2 ^ 64) (m_ctime (n_meta e)) /\ opt_all (fun t => t < 2 ^ 64) (m_mtime (n_meta e)) /\
+  opt_all (fun t => t < 2 ^ 64) (m_atime (n_meta e)) /\
+  opt_all wf_perm (m_perm (n_meta e)) /\ Forall wf_xattr (n_xattrs e).
+
+Lemma parse_normal_wf cs e : parse_normal cs = Ok e -> wf_normal e.
+Proof.
+  unfold parse_normal. destruct cs as [|c cs]; [discriminate|].
+  destruct (negb (ty_is c FHED)); [discriminate|].
+  destruct (parse_normal_loop (c :: cs) nacc0) as [a| |] eqn:E; cbn [bind]; try discriminate.
+  apply (parse_normal_loop_wf _ _ _ wf_acc0) in E.
+  destruct E as (W1 & W2 & W3 & W4 & W5 & W6 & W7 & W8 & W9 & W10).
+  destruct (k_info a) as [h|]; [|discriminate].
+  destruct (N.eqb_spec (f_major h) 0) as [M1|]; [|discriminate].
+  destruct (N.eqb_spec (f_minor h) 0) as [M2|]; [|discriminate].
+  cbn [andb negb]. intros [= <-]. cbn [opt_all] in W1. destruct W1 as (F1 & F2 & F3).
+  unfold wf_normal, wf_fhed; cbn [n_hdr n_phsf n_extra n_data n_meta n_xattrs m_raw_size m_compressed m_ctime m_mtime m_atime m_perm].
+  repeat split; try assumption. congruence.
+Qed.
+
+(* 15: the recorded compressed size is the sum of the data payload lengths *)
+Theorem compressed_size_sum cs e : parse_normal cs = Ok e ->
+  m_compressed (n_meta e) = fold_left N.add (map len (n_data e)) 0.
+Proof. intros H. apply parse_normal_wf in H. apply H. Qed.
+
+(* ---- the accumulator after each group of chunks that ser_normal writes ---------------------------- *)
+Definition upd_info h a := {| k_info := Some h; k_phsf := k_phsf a; k_extra := k_extra a; k_data := k_data a;
+  k_csize := k_csize a; k_size := k_size a; k_c := k_c a; k_m := k_m a; k_a := k_a a; k_perm := k_perm a; k_x := k_x a |}.
+Definition upd_phsf s a := {| k_info := k_info a; k_phsf := Some s; k_extra := k_extra a; k_data := k_data a;
+  k_csize := k_csize a; k_size := k_size a; k_c := k_c a; k_m := k_m a; k_a := k_a a; k_perm := k_perm a; k_x := k_x a |}.
+Definition upd_extra cs a := {| k_info := k_info a; k_phsf := k_phsf a; k_extra := k_extra a ++ cs; k_data := k_data a;
+  k_csize := k_csize a; k_size := k_size a; k_c := k_c a; k_m := k_m a; k_a := k_a a; k_perm := k_perm a; k_x := k_x a |}.
+Definition upd_data ds a := {| k_info := k_info a; k_phsf := k_phsf a; k_extra := k_extra a; k_data := k_data a ++ ds;
+  k_csize := k_csize a + sum_len ds; k_size := k_size a; k_c := k_c a; k_m := k_m a; k_a := k_a a; k_perm := k_perm a; k_x := k_x a |}.
+Definition upd_size n a := {| k_info := k_info a; k_phsf := k_phsf a; k_extra := k_extra a; k_data := k_data a;
+  k_csize := k_csize a; k_size := Some n; k_c := k_c a; k_m := k_m a; k_a := k_a a; k_perm := k_perm a; k_x := k_x a |}.
+Definition upd_c t a := {| k_info := k_info a; k_phsf := k_phsf a; k_extra := k_extra a; k_data := k_data a;
+  k_csize := k_csize a; k_size := k_size a; k_c := Some t; k_m := k_m a; k_a := k_a a; k_perm := k_perm a; k_x := k_x a |}.
+Definition upd_m t a := {| k_info := k_info a; k_phsf := k_phsf a; k_extra := k_extra a; k_data := k_data a;
+  k_csize := k_csize a; k_size := k_size a; k_c := k_c a; k_m := Some t; k_a := k_a a; k_perm := k_perm a; k_x := k_x a |}.
+Definition upd_a t a := {| k_info := k_info a; k_phsf := k_phsf a; k_extra := k_extra a; k_data := k_data a;
+  k_csize := k_csize a; k_size := k_size a; k_c := k_c a; k_m := k_m a; k_a := Some t; k_perm := k_perm a; k_x := k_x a |}.
+Definition upd_perm p a := {| k_info := k_info a; k_phsf := k_phsf a; k_extra := k_extra a; k_data := k_data a;
+  k_csize := k_csize a; k_size := k_size a; k_c := k_c a; k_m := k_m a; k_a := k_a a; k_perm := Some p; k_x := k_x a |}.
+Definition upd_x xs a := {| k_info := k_info a; k_phsf := k_phsf a; k_extra := k_extra a; k_data := k_data a;
+  k_csize := k_csize a; k_size := k_size a; k_c := k_c a; k_m := k_m a; k_a := k_a a; k_perm := k_perm a; k_x := k_x a ++ xs |}.
+Definition opt_upd {A} (f : A -> nacc -> nacc) (o : option A) (a : nacc) : nacc :=
+  match o with Some v => f v a | None => a end.
+
+(* ty_is on a chunk built with a literal type, against a literal type: decide by evaluation *)
+Ltac tysimp :=
+  repeat match goal with
+  | |- context [ty_is (mk ?t ?d) ?u] =>
+      let b := eval vm_compute in (bytes_eqb t u) in change (ty_is (mk t d) u) with b
+  end; cbv iota.
+
+Section Segments.
+Variable rest : list chunk.
+
+Lemma seg_fhed h a : fhed_of_bytes (fhed_to_bytes h) = Ok h ->
+  parse_normal_loop (mk FHED (fhed_to_bytes h) :: rest) a = parse_normal_loop rest (upd_info h a).
+Proof. intros H. cbn [parse_normal_loop]. tysimp. cbn [cdata mk]. rewrite H. reflexivity. Qed.
+
+Lemma upd_extra_nil a : upd_extra [] a = a.
+Proof. destruct a. unfold upd_extra. cbn. rewrite app_nil_r. reflexivity. Qed.
+
+Lemma seg_extra ex : Forall (fun c => is_known c = false) ex -> forall a,
+  parse_normal_loop (ex ++ rest) a = parse_normal_loop rest (upd_extra ex a).
+Proof.
+  induction 1 as [|c ex Hc _ IH]; intros a; [rewrite upd_extra_nil; reflexivity|].
+  cbn [app parse_normal_loop].
+  destruct (is_known_false c Hc) as (-> & -> & -> & -> & -> & -> & -> & -> & -> & ->).
+  rewrite IH. f_equal. unfold upd_extra. cbn [k_info k_phsf k_extra k_data k_csize k_size k_c k_m k_a k_perm k_x].
+  rewrite <- app_assoc. reflexivity.
+Qed.
+
+Lemma seg_size o a : opt_all (fun n => n < 2 ^ 128) o ->
+  parse_normal_loop (opt_chunk fSIZ fsiz_to_bytes o ++ rest) a = parse_normal_loop rest (opt_upd upd_size o a).
+Proof.
+  destruct o as [n|]; cbn [opt_all opt_chunk app opt_upd]; [|reflexivity]. intros H.
+  cbn [parse_normal_loop]. tysimp. cbn [cdata mk]. rewrite fsiz_inv by exact H. reflexivity.
+Qed.
+
+Lemma seg_phsf o a : opt_all (fun s => utf8_valid s = true) o ->
+  parse_normal_loop (opt_chunk PHSF (fun s => s) o ++ rest) a = parse_normal_loop rest (opt_upd upd_phsf o a).
+Proof.
+  destruct o as [s|]; cbn [opt_all opt_chunk app opt_upd]; [|reflexivity]. intros H.
+  cbn [parse_normal_loop]. tysimp. cbn [cdata mk]. unfold utf8_string. rewrite H. reflexivity.
+Qed.
+
+Lemma upd_data_nil a : upd_data [] a = a.
+Proof.
+  destruct a as [a1 a2 a3 a4 a5 a6 a7 a8 a9 a10 a11]. unfold upd_data. cbn [k_info k_phsf k_extra k_data k_csize k_size k_c k_m k_a k_perm k_x].
+  rewrite app_nil_r, sum_len_nil, N.add_0_r. reflexivity.
+Qed.
+
+Lemma seg_data ds : forall a,
+  parse_normal_loop (concat (map (data_chunks FDAT) ds) ++ rest) a =
+  parse_normal_loop rest (upd_data (filter nonempty ds) a).
+Proof.
+  induction ds as [|d ds IH]; intros a; [rewrite upd_data_nil; reflexivity|].
+  destruct d as [|b d]; cbn [map concat data_chunks filter nonempty app]; [apply IH|].
+  cbn [parse_normal_loop]. tysimp. cbn [cdata mk]. rewrite IH. f_equal.
+  unfold upd_data. cbn [k_info k_phsf k_extra k_data k_csize k_size k_c k_m k_a k_perm k_x].
+  rewrite <- app_assoc, sum_len_cons, N.add_assoc. reflexivity.
+Qed.
+
+Lemma seg_ctime o a : opt_all (fun t => t < 2 ^ 64) o ->
+  parse_normal_loop (opt_chunk cTIM time_to_bytes o ++ rest) a = parse_normal_loop rest (opt_upd upd_c o a).
+Proof.
+  destruct o as [t|]; cbn [opt_all opt_chunk app opt_upd]; [|reflexivity]. intros H.
+  cbn [parse_normal_loop]. tysimp. cbn [cdata mk]. rewrite time_inv by exact H. reflexivity.
+Qed.
+Lemma seg_mtime o a : opt_all (fun t => t < 2 ^ 64) o ->
+  parse_normal_loop (opt_chunk mTIM time_to_bytes o ++ rest) a = parse_normal_loop rest (opt_upd upd_m o a).
+Proof.
+  destruct o as [t|]; cbn [opt_all opt_chunk app opt_upd]; [|reflexivity]. intros H.
+  cbn [parse_normal_loop]. tysimp. cbn [cdata mk]. rewrite time_inv by exact H. reflexivity.
+Qed.
+Lemma seg_atime o a : opt_all (fun t => t < 2 ^ 64) o ->
+  parse_normal_loop (opt_chunk aTIM time_to_bytes o ++ rest) a = parse_normal_loop rest (opt_upd upd_a o a).
+Proof.
+  destruct o as [t|]; cbn [opt_all opt_chunk app opt_upd]; [|reflexivity]. intros H.
+  cbn [parse_normal_loop]. tysimp. cbn [cdata mk]. rewrite time_inv by exact H. reflexivity.
+Qed.
+Lemma seg_perm o a : opt_all wf_perm o ->
+  parse_normal_loop (opt_chunk fPRM perm_to_bytes o ++ rest) a = parse_normal_loop rest (opt_upd upd_perm o a).
+Proof.
+  destruct o as [p|]; cbn [opt_all opt_chunk app opt_upd]; [|reflexivity]. intros H.
+  cbn [parse_normal_loop]. tysimp. cbn [cdata mk]. rewrite perm_inv by exact H. reflexivity.
+Qed.
+
+Lemma upd_x_nil a : upd_x [] a = a.
+Proof. destruct a. unfold upd_x. cbn. rewrite app_nil_r. reflexivity. Qed.
+
+Lemma seg_xattrs xs : Forall wf_xattr xs -> forall a,
+  parse_normal_loop (map (fun x => mk xATR (xattr_to_bytes x)) xs ++ rest) a = parse_normal_loop rest (upd_x xs a).
+Proof.
+  induction 1 as [|x xs Hx _ IH]; intros a; [rewrite upd_x_nil; reflexivity|].
+  cbn [map app parse_normal_loop]. tysimp. cbn [cdata mk]. rewrite xattr_inv by exact Hx. cbn [bind].
+  rewrite IH. f_equal. unfold upd_x. cbn [k_info k_phsf k_extra k_data k_csize k_size k_c k_m k_a k_perm k_x].
+  rewrite <- app_assoc. reflexivity.
+Qed.
+End Segments.
+
+Lemma seg_fend a : parse_normal_loop [mk FEND []] a = Ok a.
+Proof. cbn [parse_normal_loop]. tysimp. reflexivity. Qed.
+
+(* parse . serialise on an entry with the parser's invariant *)
+Lemma parse_ser_wf e : wf_normal e -> parse_normal (ser_normal e) = Ok (normalize e).
+Proof.
+  intros (H1 & H2 & H3 & H4 & H5 & H6 & H7 & H8 & H9 & H10 & H11 & H12).
+  destruct e as [h ph ex ds [sz cz tc tm ta pm] xs].
+  cbn [n_hdr n_phsf n_extra n_data n_meta n_xattrs m_raw_size m_compressed m_ctime m_mtime m_atime m_perm] in *.
+  unfold parse_normal, ser_normal.
+  cbn [n_hdr n_phsf n_extra n_data n_meta n_xattrs m_raw_size m_compressed m_ctime m_mtime m_atime m_perm].
+  cbv zeta. cbn [app]. tysimp. cbn [negb].
+  rewrite seg_fhed by (apply fhed_inv; exact H1).
+  rewrite seg_extra by exact H5. rewrite seg_size by exact H7. rewrite seg_phsf by exact H4.
+  rewrite seg_data. rewrite seg_ctime by exact H8. rewrite seg_mtime by exact H9. rewrite seg_atime by exact H10.
+  rewrite seg_perm by exact H11. rewrite seg_xattrs by exact H12. rewrite seg_fend. cbn [bind].
+  unfold normalize. cbn [n_hdr n_phsf n_extra n_data n_meta n_xattrs].
+  destruct sz, ph, tc, tm, ta, pm;
+    cbn [opt_upd upd_info upd_phsf upd_extra upd_data upd_size upd_c upd_m upd_a upd_perm upd_x
+         k_info k_phsf k_extra k_data k_csize k_size k_c k_m k_a k_perm k_x nacc0 app];
+    rewrite H2, H3; cbn [N.eqb andb negb]; change (0 =? 0) with true; cbn [andb negb];
+    rewrite N.add_0_l, sum_len_filter, <- H6; reflexivity.
+Qed.
+
+(* 14a: re-parsing the serialisation of a parsed entry gives the entry back, up to dropped empty payloads *)
+Theorem parse_ser_normal cs e : parse_normal cs = Ok e ->
+  exists e', parse_normal (ser_normal e) = Ok e' /\ e' = normalize e.
+Proof. intros H. exists (normalize e). split; [apply parse_ser_wf, (parse_normal_wf _ _ H)|reflexivity]. Qed.
+
+Lemma data_chunks_filter t ds :
+  concat (map (data_chunks t) (filter nonempty ds)) = concat (map (data_chunks t) ds).
+Proof.
+  induction ds as [|d ds IH]; [reflexivity|]. destruct d as [|b d]; cbn [filter nonempty map concat data_chunks app].
+  - exact IH.
+  - rewrite IH. reflexivity.
+Qed.
+
+Lemma ser_normalize e : ser_normal (normalize e) = ser_normal e.
+Proof. unfold ser_normal, normalize. cbn [n_hdr n_phsf n_extra n_data n_meta n_xattrs]. rewrite data_chunks_filter. reflexivity. Qed.
+
+(* 14b: byte-stable from the second pass *)
+Theorem ser_stable cs e e' : parse_normal cs = Ok e -> parse_normal (ser_normal e) = Ok e' ->
+  ser_normal e' = ser_normal e.
+Proof.
+  intros H H'. destruct (parse_ser_normal _ _ H) as (e2 & E2 & ->). rewrite E2 in H'. injection H' as <-.
+  apply ser_normalize.
+Qed.
+
+(* 14c: chunks of unknown type survive, in order *)
+Theorem extras_survive cs e e' : parse_normal cs = Ok e -> parse_normal (ser_normal e) = Ok e' ->
+  n_extra e' = n_extra e.
+Proof.
+  intros H H'. destruct (parse_ser_normal _ _ H) as (e2 & E2 & ->). rewrite E2 in H'. injection H' as <-. reflexivity.
+Qed.
+
+Lemma normalize_idem e : normalize (normalize e) = normalize e.
+Proof.
+  unfold normalize. cbn [n_hdr n_phsf n_extra n_data n_meta n_xattrs]. f_equal.
+  induction (n_data e) as [|d ds IH]; [reflexivity|]. destruct d; cbn [filter nonempty]; [exact IH|]. rewrite IH. reflexivity.
+Qed.
+
+Lemma wf_normal_normalize e : wf_normal e -> wf_normal (normalize e).
+Proof.
+  intros (H1 & H2 & H3 & H4 & H5 & H6 & H7 & H8 & H9 & H10 & H11 & H12).
+  unfold wf_normal, normalize. cbn [n_hdr n_phsf n_extra n_data n_meta n_xattrs]. rewrite sum_len_filter.
+  repeat (split; [assumption|]). assumption.
+Qed.
+
+(* the second pass is a fixed point *)
+Theorem parse_ser_fixed cs e : parse_normal cs = Ok e ->
+  parse_normal (ser_normal (normalize e)) = Ok (normalize e).
+Proof.
+  intros H. rewrite <- (normalize_idem e) at 2. apply parse_ser_wf, wf_normal_normalize, (parse_normal_wf _ _ H).
+Qed.
+
+(* what was parsed is what is written, for the metadata too *)
+Corollary parse_ser_meta cs e e' : parse_normal cs = Ok e -> parse_normal (ser_normal e) = Ok e' ->
+  n_hdr e' = n_hdr e /\ n_meta e' = n_meta e /\ n_xattrs e' = n_xattrs e /\ n_phsf e' = n_phsf e /\
+  n_data e' = filter nonempty (n_data e).
+Proof.
+  intros H H'. destruct (parse_ser_normal _ _ H) as (e2 & E2 & ->). rewrite E2 in H'. injection H' as <-.
+  repeat split.
+Qed.
+
+Definition ex_normal_chunks : list chunk :=
+  [mk FHED ([x00; x00; x00; x01; x00; x00] ++ lit "/dir/./file");
+   mk (T "zzZz") [x01; x02]; mk FDAT [xaa]; mk FDAT []; mk mTIM (be64 1700000000);
+   mk fPRM (be64 1000 ++ [x01] ++ lit "u" ++ be64 100 ++ [x01] ++ lit "g" ++ be16 420);
+   mk xATR (be32 6 ++ lit "user.k" ++ be32 1 ++ [xff]); mk fSIZ [x00; x01; x00]; mk FDAT [xbb; xcc];
+   mk FEND []].
+
+Example parse_ser_normal_ex : exists e e',
+  parse_normal ex_normal_chunks = Ok e /\ n_data e = [[xaa]; []; [xbb; xcc]] /\ f_name (n_hdr e) = lit "dir/file" /\
+  parse_normal (ser_normal e) = Ok e' /\ n_data e' = [[xaa]; [xbb; xcc]] /\
+  n_extra e' = [mk (T "zzZz") [x01; x02]] /\ m_raw_size (n_meta e') = Some 256 /\
+  ser_normal e' = ser_normal e /\ ser_normal e <> ex_normal_chunks.
+Proof.
+  eexists. eexists. split; [vm_compute; reflexivity|]. split; [reflexivity|]. split; [reflexivity|].
+  split; [vm_compute; reflexivity|]. repeat split; try (vm_compute; reflexivity). vm_compute. discriminate.
+Qed.
